@@ -256,6 +256,13 @@ def check_link_loss(ctx):
         b = [n for n in cfg.real_nodes() if any(c == second for c in n.call_names())]
         ok = len(a) == 1 and len(b) == 1 and cfg.count_on_paths(lambda n: n in a + b, cfg.entry, cfg.exit, no_exc=True) == (2, 2)
         ctx.ob("C07.P4", m_.qualname, ok, f"{name}() performs {first.split('.', 1)[1]} and {second.split('.', 1)[1]} on every path" if ok else f"{name}() does not perform both {first} and {second} on every path", where=m_.where)
+        if ok and name == "enable":
+            # a transport may report the link as up from inside its own enable() (serial SECS-I does): the state machine
+            # must already be ENABLED then, or select() is refused in DISABLED and no S1F13 is ever sent
+            ok2 = cfg.dominates(a[0], b[0])
+            ctx.ob("C07.P4", m_.qualname, ok2, "the communication state machine is enabled before the link can come up" if ok2 else
+                   "enable() opens the link before the communication state machine is enabled: a link that is up immediately (SECS-I serial, or a peer already waiting) is reported while the machine is still DISABLED; select() raises, no S1F13 is sent and the handler stays NOT_COMMUNICATING with the link up",
+                   key="enable-order", where=m_.where)
 
 
 def check_timers(ctx, m):
@@ -281,6 +288,13 @@ def check_timers(ctx, m):
         ctx.ob("C07.P4", eh.qualname, ok, "entering the state creates one timer" if ok else f"{len(timers)} timers created on enter", key="arms", where=eh.where)
         if not ok:
             continue
+        ecfg = cfg_of(eh.node)
+        made = ecfg.count_on_paths(lambda n: any(call_name(c) == "threading.Timer" for c in n.calls), ecfg.entry, ecfg.exit, no_exc=True)
+        started = ecfg.count_on_paths(lambda n: any(c == f"{sp['timer']}.start" for c in n.call_names()), ecfg.entry, ecfg.exit, no_exc=True)
+        ok = made == (1, 1) and started == (1, 1)
+        ctx.ob("C07.P4", eh.qualname, ok, "every entry into the state arms a fresh timer and starts it" if ok else
+               f"timer created {made} / started {started} times per entry: an entry that does not arm the timer (e.g. only when none was created before) leaves the state without its expiry - the attempt is never retried",
+               key="arms-every-entry", where=eh.where)
         t = timers[0]
         dur, cb = rules.expand(eh.node, t.args[0]), dotted(t.args[1])
         ok = dur == sp["duration"]
